@@ -563,6 +563,15 @@ func (h *harness) fixedCorpus() {
 	} {
 		h.addDoc([]byte(d), "corpus")
 	}
+	// strings the lexer has to repair or unescape: invalid UTF-8, NUL, lone and paired surrogates, escaped keys
+	for _, d := range [][]byte{
+		[]byte("{\"types\":{\"A\":[{\"name\":\"x\",\"type\":\"string\"}]},\"primaryType\":\"A\",\"message\":{\"x\":\"a\xff\xfeb \\u0000 \\ud800 \\ud83d\\ude00\"}}"),
+		[]byte("{\"types\":{\"A\":[{\"name\":\"x\xff\",\"type\":\"uint8\"}]},\"primaryType\":\"A\",\"message\":{\"x\xfe\":7}}"),
+		[]byte("{\"\\u0074ypes\":{\"A\":[{\"n\\u0061me\":\"x\",\"type\":\"uint8\"}]},\"primaryType\":\"A\",\"mess\\u0061ge\":{\"\\u0078\":\"\\u0031\"}}"),
+		[]byte("{\"types\":{\"A\":[{\"name\":\"x\",\"type\":\"uint8\"}]},\"primaryType\":\"A\",\"message\":{\"x\":\"\\u0030x1\"}}"),
+	} {
+		h.addDoc(d, "corpus/lexer")
+	}
 }
 
 func (h *harness) bigDocs(r *cv.Rand, thorough bool) {
